@@ -307,6 +307,16 @@ def gen_token(rng, depth=0):
 
 
 async def one_case(seed, context):
+    try:
+        return await _one_case(seed, context)
+    except Exception as e:  # noqa: BLE001  (a load or save that raises is a result, not a harness error)
+        import traceback
+        tb = traceback.extract_tb(e.__traceback__)
+        where = next((f"{f.filename.split('/streamflow/')[-1]}:{f.lineno} {f.name}" for f in reversed(tb) if "/streamflow/" in f.filename), "?")
+        return {"seed": seed, "steps": [], "diffs": [("save/load", "raises", f"{type(e).__name__}: {e} at {where}")]}
+
+
+async def _one_case(seed, context):
     rng = random.Random(seed)
     wf, ports = build_workflow(rng, context)
     db = context.database
@@ -460,7 +470,8 @@ class C08(Property):
                         self._flag_reported = True
                         ctx.fail("persist:deployment-flags:bool-loaded-as-int", f"{label}: {d}", {"seed": r["seed"]})
                     continue
-                key = ("persist:" + what + ":" + ("not-reproduced" if label.startswith("load#") and "after" not in label else
+                key = ("persist:" + what + ":" + ("exception" if what == "raises" else
+                                                  "not-reproduced" if label.startswith("load#") and "after" not in label else
                                                   "loads-not-independent" if "after" in label else "builder-copy-differs"))
                 ctx.fail(key, f"{label}: {d}", {"seed": r["seed"]})
 
